@@ -268,6 +268,10 @@ def gen_grammar(ctx: Ctx):
         multi = rng.random() < 0.2
         terms = rng.choice([("a", "b"), ("a", "b", "c"), ("a", "ab", "b"), ("0", "1", "x"), ("a", "b", " ")])
         g = G.gen_grammar(rng, n_nt=(1, 5), terminals=terms, eps_prob=0.2, multi_start=multi, max_syms=3)
+        if rng.random() < 0.25:
+            # a recursive start symbol (the chart then also holds inner <start> items)
+            t, u = rng.choice(terms), rng.choice(terms)
+            g["<start>"] = g["<start>"] + [rng.choice([t + "<start>", "<start>" + t, t + "<start>" + u])]
         if G.is_cyclic(g):
             ctx.count("generator", "cyclic-skipped")
             continue
@@ -292,7 +296,7 @@ def run(ctx: Ctx):
         strings = [""] + ["".join(p) for n in range(1, Lg + 1) for p in itertools.product(sigma, repeat=n)]
         exhaustive_cases += len(strings)
         strings += [s for s in derived_strings(ctx.rng, g, 12) if s not in set(strings)]
-        ctx.count("grammar", "multi-start" if len(g["<start>"]) > 1 else "single-start")
+        ctx.count("grammar", "recursive-start" if any("<start>" in a for a in g["<start>"]) else ("multi-start" if len(g["<start>"]) > 1 else "single-start"))
         check_grammar(ctx, g, "<start>", strings, "generated", Lg)
         if gi % 3 == 0:
             solver_parse(ctx, g, strings)
